@@ -28,6 +28,10 @@ def languages(thorough):
     wide = dict(Start=30, ScopeKinds=['globally'], PatternKinds=['no'], Channels=['t', 'u', 'w', 'v', 'z'], AliasNames=[], PredPool='SmallPool', Times=[], Units=[])
     L.append(('prop_disj4', dict(wide, MaxTok=12, DisjLens=[4])))
     L.append(('prop_disj5', dict(wide, MaxTok=14, DisjLens=[5], Channels=['t', 'u', 'w', 'v', 'z'] if thorough else ['t', 'u', 'w', 'v'] + ['z'])))
+    # references to the event's own alias in every kind of position of its predicate (pool AliasPool of MC_Grammar)
+    own = dict(Start=30, MaxTok=70, Channels=['t'], AliasNames=['A'], PredPool='AliasPool', Times=[], Units=[], DisjLens=[])
+    L.append(('prop_ownalias', dict(own, ScopeKinds=['globally'], PatternKinds=['no', 'causes'])))
+    L.append(('prop_ownalias_after', dict(own, ScopeKinds=['after'], PatternKinds=['some'], Channels=['t'], AliasNames=['A', 'B'] if thorough else ['A'])))
     return L
 
 
